@@ -43,7 +43,10 @@ type LineEdit struct {
 type Scenario struct {
 	Mode   string `json:"mode"` // clean | faulty
 	A      string `json:"a"`
-	Layout int    `json:"layout"` // 4 (XYZM) or 5
+	Layout int    `json:"layout"` // 4 (XYZM), 5 (what igc.Read returns) or 6
+	// Extra: value of the ordinates beyond the fourth of every fix (layouts 5
+	// and 6): they are not part of the format and must not matter.
+	Extra mgeom.F `json:"extra,omitempty"`
 	Fixes  []Fix  `json:"fixes"`
 	// Lines, when non-empty, is a hand-composed record stream used instead of
 	// the encoder's output (faulty mode only).
@@ -109,7 +112,7 @@ func (prop) Describe() core.Description {
 		RealComponents: []string{"encoding/igc (Encoder.Encode, Read and its parser)", "go-geom LineString", "stdlib bufio.Scanner, fmt, regexp, time"},
 		StubComponents: []string{"io.Writer under the encoder (simio.Writer)", "the medium between writer and reader (line and byte edits)", "io.Reader under the decoder (simio.Reader: chunking, stalls incl. unbounded, data+EOF, error at offset, truncation)"},
 		FaultKinds:     []string{"read-split", "read-stall", "read-data+eof", "read-error", "read-truncate", "stall-forever", "line-drop", "line-dup", "line-swap", "line-tear", "line-long", "byte-edit", "write-fail"},
-		Probes:         []string{"probe:year<2000", "probe:year-rollover", "probe:day-rollover", "probe:lat==+-90", "probe:lon==+-180", "probe:alt-clamped", "probe:fractional-second", "probe:I-record", "probe:I-record-extends-B", "probe:B-shorter-than-announced", "probe:line>64KiB", "probe:torn-inside-B", "probe:noise-before-A", "probe:record-errors-returned", "probe:prefix-tracks", "probe:encoder-reused", "probe:local-zone-not-utc"},
+		Probes:         []string{"probe:year<2000", "probe:year-rollover", "probe:day-rollover", "probe:lat==+-90", "probe:lon==+-180", "probe:alt-clamped", "probe:fractional-second", "probe:I-record", "probe:I-record-extends-B", "probe:B-shorter-than-announced", "probe:line>64KiB", "probe:torn-inside-B", "probe:noise-before-A", "probe:record-errors-returned", "probe:prefix-tracks", "probe:encoder-reused", "probe:local-zone-not-utc", "probe:extra-ordinates-nonzero"},
 	}
 }
 
@@ -123,7 +126,7 @@ func (prop) Decode(raw []byte) (any, error) {
 	if s.Mode != "clean" && s.Mode != "faulty" {
 		return nil, fmt.Errorf("bad mode")
 	}
-	if s.Layout != 4 && s.Layout != 5 {
+	if s.Layout < 4 || s.Layout > 6 || math.IsNaN(float64(s.Extra)) {
 		return nil, fmt.Errorf("bad layout")
 	}
 	if !validA(s.A) {
@@ -423,7 +426,10 @@ func genLines(r *prng.Rand) []string {
 }
 
 func (prop) Generate(r *prng.Rand, phase string) any {
-	s := &Scenario{Mode: phase, A: genA(r), Layout: 4 + r.Intn(2), WriteFail: -1}
+	s := &Scenario{Mode: phase, A: genA(r), Layout: 4 + r.Pick(3, 3, 1), WriteFail: -1}
+	if s.Layout > 4 {
+		s.Extra = mgeom.F([]float64{0, 0, 1, -1, 123, 9999, 20000, 1e9}[r.Intn(8)])
+	}
 	s.Fixes = genTrack(r)
 	s.Read = simio.NoFault()
 	// read plan
@@ -492,12 +498,15 @@ func (prop) Generate(r *prng.Rand, phase string) any {
 	return s
 }
 
-func buildTrack(layout int, fixes []Fix) *geom.LineString {
+func buildTrack(layout int, fixes []Fix, extra ...float64) *geom.LineString {
 	stride := mgeom.Stride(layout)
 	flat := make([]float64, 0, stride*len(fixes))
 	for _, f := range fixes {
 		c := make([]float64, stride)
 		c[0], c[1], c[2], c[3] = float64(f.Lon), float64(f.Lat), float64(f.Alt), float64(f.T)
+		for i := 4; i < stride && len(extra) > 0; i++ {
+			c[i] = extra[0]
+		}
 		flat = append(flat, c...)
 	}
 	return geom.NewLineStringFlat(geom.Layout(layout), flat)
@@ -517,7 +526,10 @@ func clampAlt(alt float64) float64 {
 // checkTrack encodes fixes, reads them back through plan and applies the
 // clean-pipe oracle.
 func checkTrack(res *core.Result, log *core.Log, s *Scenario, ses *session, fixes []Fix, plan simio.ReadPlan, what string) bool {
-	ls := buildTrack(s.Layout, fixes)
+	ls := buildTrack(s.Layout, fixes, float64(s.Extra))
+	if s.Layout > 4 && float64(s.Extra) != 0 {
+		res.Count("probe:extra-ordinates-nonzero", 1)
+	}
 	w := simio.NewWriter(simio.WritePlan{FailAt: -1})
 	var err error
 	var enc *igc.Encoder
@@ -736,7 +748,7 @@ func faulty(s *Scenario, log *core.Log) core.Result {
 		text = []byte(strings.Join(s.Lines, eol) + eol)
 	} else {
 		trackProbes(&res, s.Fixes)
-		ls := buildTrack(s.Layout, s.Fixes)
+		ls := buildTrack(s.Layout, s.Fixes, float64(s.Extra))
 		w := simio.NewWriter(simio.WritePlan{FailAt: s.WriteFail, Short: true})
 		var err error
 		if p := core.Guard(func() { err = igc.NewEncoder(w, igc.A(s.A)).Encode(ls) }); p != "" {
